@@ -291,6 +291,7 @@ type books struct {
 	inflight map[string]float64
 	totals   map[string]float64 // "method|code"
 	lcx, lactive, dcxActive float64
+	dcxSeries               map[string]float64 // dialer_cx_active per label set: every series returns to zero, not only their sum
 	dcx, derr               float64
 }
 
@@ -315,6 +316,10 @@ func readBooks(p *ProxyInst) books {
 			b.lactive = v
 		case "forwarder_dialer_cx_active":
 			b.dcxActive += v
+			if b.dcxSeries == nil {
+				b.dcxSeries = map[string]float64{}
+			}
+			b.dcxSeries[labels] = v
 		case "forwarder_dialer_cx_total":
 			b.dcx += v
 		case "forwarder_dialer_errors_total":
@@ -502,7 +507,13 @@ func runC13(c C13Case) (fails []vstat.Failure) {
 			p.Tr.CloseIdleConnections()
 			b := readBooks(p)
 			d := countDials(p)
+			for lab, v := range b.dcxSeries {
+				if v != 0 {
+					bad = fmt.Sprintf("proxy %q: dialer_cx_active{%s}=%v after every connection was closed (all series: %v)", r, lab, v, b.dcxSeries)
+				}
+			}
 			switch {
+			case bad != "":
 			case b.dcxActive != 0:
 				bad = fmt.Sprintf("proxy %q: dialer_cx_active=%v after every connection was closed", r, b.dcxActive)
 			case int(b.dcx) != d[0]:
